@@ -120,13 +120,20 @@ func ibRun(args []string) error {
 					if err != nil {
 						return err
 					}
+					// one signer object for the whole history in every other case (state kept in the signer must not
+					// leak from one signature to the next), a fresh one per operation otherwise
+					shared := &integrityblock.IntegrityBlockSigner{WebBundleHash: hash, IntegrityBlock: ib}
 					for k, mode := range seq {
 						key := keys[(k+si)%3]
 						st := &ibStrategy{priv: key.priv, pub: key.pub, mode: mode}
 						if mode == "wrongkey" {
 							st.priv = keys[(k+si+1)%3].priv
 						}
-						ibs := integrityblock.IntegrityBlockSigner{SigningStrategy: st, WebBundleHash: hash, IntegrityBlock: ib}
+						ibs := shared
+						if id%2 == 0 {
+							ibs = &integrityblock.IntegrityBlockSigner{WebBundleHash: hash, IntegrityBlock: ib}
+						}
+						ibs.SigningStrategy = st
 						pub, _ := st.GetPublicKey()
 						attrs := integrityblock.GenerateSignatureAttributesWithPublicKey(pub)
 						// extra attributes, inserted in either order
